@@ -40,6 +40,7 @@ class Lexer(astutils.Lexer):
             'U': 'UNTIL',
             'W': 'WEAK_UNTIL',
             'V': 'RELEASE',
+            'R': 'RELEASE',
             'S': 'SINCE',  # as in NuSMV
             'T': 'TRIGGER'}
         self.values = {'next': 'X'}
